@@ -24,7 +24,7 @@ ASSUMPTIONS = [
 ]
 MONITORS = ("lost-bytes accounting: {path: bytes} of the workspace before vs after against the set of intact cache objects; audit-hook trail of "
             "removals as witness; shadow model of the link table for clean-up")
-REQUIRED_COUNTERS = ["damaged_cache_objects", "symlinked_link_records", "checkouts", "uncached_files_in_workspace", "prompt_errors", "declining_prompt_calls", "normal_returns", "kind_swap_cases",
+REQUIRED_COUNTERS = ["large_file_directories", "dir_links_with_duplicate_basenames", "damaged_cache_objects", "symlinked_link_records", "checkouts", "uncached_files_in_workspace", "prompt_errors", "declining_prompt_calls", "normal_returns", "kind_swap_cases",
                      "link_histories", "unused_link_queries", "remove_links_calls", "relink_cases", "store/local", "store/base",
                      "link/copy", "link/hardlink", "link/symlink"]
 
@@ -55,6 +55,13 @@ def run_shard(ctx):
             pool = [gen.small_content(rng) for _ in range(3)] + [b""]
             A, _e = gen.tree(rng, depth=rng.randrange(0, 3), fanout=3, pool_=pool, dup=0.5, odd=0.25, min_files=1, empty_dirs=False)
             B, _e2, _ops = gen.mutate_tree(rng, A, (), pool, kind_swaps=rng.random() < 0.4)
+            bigcase = rng.random() < 0.05
+            if bigcase:
+                # several files above the large-file threshold in one directory: one tracked, the others the user's own
+                bigs = gen.big_files(rng)
+                A[("bigdir", "tracked.bin")] = bigs[0]
+                B[("bigdir", "tracked.bin")] = bigs[0] + b"v2"
+                res.count("large_file_directories")
             aobj = colab.populate(odb, d, A, "asrc")
             bobj = colab.populate(odb, d, B, "bsrc")
             ws = os.path.join(d, "ws", "out")
@@ -66,6 +73,11 @@ def run_shard(ctx):
                 checkout(ws, fs, load(odb, (aobj if start == "A" else bobj).hash_info), odb, force=True, state=state)
             else:
                 os.makedirs(ws)
+            if bigcase and start != "empty" and os.path.isdir(os.path.join(ws, "bigdir")):
+                for j, c in enumerate(bigs[1:]):
+                    with open(os.path.join(ws, "bigdir", f"user{j}.bin"), "wb") as f:
+                        f.write(c)
+                    model[("bigdir", f"user{j}.bin")] = c
             swaps = rng.random() < 0.4
             model, ops = colab.user_edit(rng, ws, model, pool, allow_kind_swaps=swaps, in_place_ok=(link == "copy"))
             if any(o in ("file->dir", "dir->file") for o in ops):
@@ -165,6 +177,14 @@ def run_shard(ctx):
                     for j in range(rng.randrange(1, 4)):
                         with open(os.path.join(p, f"in{j}"), "wb") as f:
                             f.write(gen.small_content(rng))
+                    if rng.random() < 0.6:
+                        # nested sub-directories holding equally named files (train/part-0, valid/part-0)
+                        for sub in ("train", "valid", "test")[: rng.randrange(2, 4)]:
+                            os.makedirs(os.path.join(p, sub))
+                            for nm2 in ("part-0", "part-1"):
+                                with open(os.path.join(p, sub, nm2), "wb") as f:
+                                    f.write(gen.small_content(rng))
+                        res.count("dir_links_with_duplicate_basenames")
                     paths[p] = "dir"
                 elif r0 < 0.5:
                     # a checked-out file under the symlink link type: a symlink into some cache directory
@@ -207,7 +227,7 @@ def run_shard(ctx):
                     hist.append(("save", os.path.basename(p)))
                 elif op == "modify":
                     if paths[p] == "dir":
-                        inner = sorted(os.listdir(p))
+                        inner = sorted(os.path.relpath(os.path.join(dp, f), p) for dp, _dn, fn in os.walk(p) for f in fn)
                         if inner and rng.random() < 0.6:
                             touch_change(os.path.join(p, rng.choice(inner)))
                         else:
